@@ -33,9 +33,10 @@ VARIABLES tid, i,
           expectSave,  \* a periodic save is due before the next sweep
           restoredOlder, \* an older explicit step was restored into the same directory
           rfrom,       \* iteration the live solver was restored from (-1: built fresh)
+          savedp,      \* set of <<step, digest of the policy field>> handed to save() so far
           verdict
 vars == <<tid, i, iter, incall, due, onDisk, durable, lastCall, prevCall, dir, freq, keep, isasync,
-          crashed, expectSave, restoredOlder, rfrom, verdict>>
+          crashed, expectSave, restoredOlder, rfrom, savedp, verdict>>
 
 T  == Traces[tid]
 Ev == T.ev[i]
@@ -50,14 +51,14 @@ Init ==
   /\ due = <<{}, {}>> /\ onDisk = <<{}, {}>>
   /\ durable = 0 /\ lastCall = 0 /\ prevCall = 0 /\ dir = 1
   /\ freq = Traces[tid].freq /\ keep = Traces[tid].keep /\ isasync = Traces[tid].isasync
-  /\ crashed = FALSE /\ expectSave = FALSE /\ restoredOlder = FALSE /\ rfrom = -1
+  /\ crashed = FALSE /\ expectSave = FALSE /\ restoredOlder = FALSE /\ rfrom = -1 /\ savedp = {}
   /\ verdict = "running"
 
 Reject(prop, clause) ==
   /\ verdict' = "rejected"
   /\ PrintT(<<"REJECT", tid, i, prop, clause>>)
   /\ UNCHANGED <<tid, i, iter, incall, due, onDisk, durable, lastCall, prevCall, dir, freq, keep,
-                 isasync, crashed, expectSave, restoredOlder, rfrom>>
+                 isasync, crashed, expectSave, restoredOlder, rfrom, savedp>>
 
 Running == verdict = "running" /\ i <= Len(T.ev)
 Step == i' = i + 1 /\ UNCHANGED <<tid, verdict>>
@@ -74,14 +75,14 @@ New ==
   /\ IF Ev.iter # 0 \/ Ev.vtag # 0 THEN Reject("C09", "new: a fresh solver does not hold the initial values")
      ELSE /\ iter' = 0 /\ incall' = FALSE /\ lastCall' = 0 /\ prevCall' = 0 /\ expectSave' = FALSE
           /\ Step
-          /\ UNCHANGED <<due, onDisk, durable, dir, freq, keep, isasync, crashed, restoredOlder, rfrom>>
+          /\ UNCHANGED <<due, onDisk, durable, dir, freq, keep, isasync, crashed, restoredOlder, rfrom, savedp>>
 
 Begin ==
   /\ Running /\ Ev.e = "begin"
   /\ IF iter = -1 \/ incall THEN Reject("C09", "begin: no live solver / nested call")
      ELSE IF Ev.iter # iter THEN Reject("C09", "begin: iteration counter changed outside solve()")
      ELSE /\ incall' = TRUE /\ expectSave' = FALSE /\ Step
-          /\ UNCHANGED <<iter, due, onDisk, durable, lastCall, prevCall, dir, freq, keep, isasync, crashed, restoredOlder, rfrom>>
+          /\ UNCHANGED <<iter, due, onDisk, durable, lastCall, prevCall, dir, freq, keep, isasync, crashed, restoredOlder, rfrom, savedp>>
 
 (* C09: enabling checkpointing never changes a computed result - every sweep of every          *)
 (* generation produces exactly the reference iterate its counter names                          *)
@@ -102,7 +103,7 @@ Sweep ==
      ELSE /\ iter' = iter + 1
           /\ expectSave' = (freq > 0 /\ ~Ev.conv /\ (iter + 1) % freq = 0)
           /\ Step
-          /\ UNCHANGED <<incall, due, onDisk, durable, lastCall, prevCall, dir, freq, keep, isasync, crashed, restoredOlder, rfrom>>
+          /\ UNCHANGED <<incall, due, onDisk, durable, lastCall, prevCall, dir, freq, keep, isasync, crashed, restoredOlder, rfrom, savedp>>
 
 (* C11/C12: the label of a save is the iteration just completed and the state handed over is    *)
 (* exactly the state of that iteration                                                          *)
@@ -118,6 +119,8 @@ SaveCall ==
      ELSE /\ due' = [due EXCEPT ![dir] = @ \cup {Ev.step}]
           /\ prevCall' = lastCall /\ lastCall' = Ev.step
           /\ expectSave' = FALSE
+          \* the first save of a step wins (a repeated save of the same step is refused by the manager)
+          /\ savedp' = IF \E x \in savedp : x[1] = Ev.step THEN savedp ELSE savedp \cup {<<Ev.step, Ev.pdig>>}
           /\ Step
           /\ UNCHANGED <<iter, incall, onDisk, durable, dir, freq, keep, isasync, crashed, restoredOlder, rfrom>>
 
@@ -129,7 +132,7 @@ SaveReturn ==
                 ELSE IF ~isasync THEN (IF Ev.step > durable THEN Ev.step ELSE durable)
                 ELSE (IF prevCall > durable /\ prevCall < Ev.step THEN prevCall ELSE durable)
   /\ Step
-  /\ UNCHANGED <<iter, incall, due, onDisk, lastCall, prevCall, dir, freq, keep, isasync, crashed, expectSave, restoredOlder, rfrom>>
+  /\ UNCHANGED <<iter, incall, due, onDisk, lastCall, prevCall, dir, freq, keep, isasync, crashed, expectSave, restoredOlder, rfrom, savedp>>
 
 End ==
   /\ Running /\ Ev.e = "end"
@@ -139,13 +142,13 @@ End ==
      ELSE IF Ev.final /\ Ev.iter = T.refconv /\ Ev.ptag # T.refconv
        THEN Reject("C09", "end: final policy differs from the uninterrupted run")
      ELSE /\ incall' = FALSE /\ expectSave' = FALSE /\ Step
-          /\ UNCHANGED <<iter, due, onDisk, durable, lastCall, prevCall, dir, freq, keep, isasync, crashed, restoredOlder, rfrom>>
+          /\ UNCHANGED <<iter, due, onDisk, durable, lastCall, prevCall, dir, freq, keep, isasync, crashed, restoredOlder, rfrom, savedp>>
 
 Waited ==
   /\ Running /\ Ev.e = "waited"
   /\ durable' = IF lastCall > durable /\ ~restoredOlder THEN lastCall ELSE durable
   /\ Step
-  /\ UNCHANGED <<iter, incall, due, onDisk, lastCall, prevCall, dir, freq, keep, isasync, crashed, expectSave, restoredOlder, rfrom>>
+  /\ UNCHANGED <<iter, incall, due, onDisk, lastCall, prevCall, dir, freq, keep, isasync, crashed, expectSave, restoredOlder, rfrom, savedp>>
 
 (* directory listing.  quiescent listings (after wait_until_finished, no kill) are held to the  *)
 (* cadence/retention rule; post-mortem listings to durability and to "nothing but save points". *)
@@ -176,14 +179,14 @@ Listing ==
           \* after a kill, saves that never committed are forgotten: the directory is the truth
           /\ due' = IF Ev.postmortem THEN [due EXCEPT ![d] = fin] ELSE due
           /\ Step
-          /\ UNCHANGED <<iter, incall, durable, lastCall, prevCall, dir, freq, keep, isasync, crashed, expectSave, restoredOlder, rfrom>>
+          /\ UNCHANGED <<iter, incall, durable, lastCall, prevCall, dir, freq, keep, isasync, crashed, expectSave, restoredOlder, rfrom, savedp>>
 
 Crash ==      \* the process generation ended (killed, or simply exited)
   /\ Running /\ Ev.e = "crash"
   /\ iter' = -1 /\ incall' = FALSE /\ crashed' = Ev.killed /\ lastCall' = 0 /\ prevCall' = 0
   /\ expectSave' = FALSE
   /\ Step
-  /\ UNCHANGED <<due, onDisk, durable, dir, freq, keep, isasync, restoredOlder, rfrom>>
+  /\ UNCHANGED <<due, onDisk, durable, dir, freq, keep, isasync, restoredOlder, rfrom, savedp>>
 
 (* C10 / C11: restore outcome *)
 RestoreOK ==
@@ -202,6 +205,8 @@ RestoreOK ==
      ELSE IF Ev.hidxok = FALSE THEN Reject("C10", "restore: history index / period not restored")
      ELSE IF T.expectpolicy /\ Ev.ptag # chosen
        THEN Reject("C10", "restore: stored policy not restored")
+     ELSE IF \E x \in savedp : x[1] = chosen /\ x[2] # Ev.pdig
+       THEN Reject("C10", "restore: the policy field differs from the one handed to save() at that step")
      ELSE IF Ev.cfgeq = FALSE THEN Reject("C10", "restore: rebuilt configuration differs from the original")
      ELSE IF Ev.dtypeok = FALSE THEN Reject("C10", "restore: restored values have a different dtype")
      ELSE IF Ev.route = "restore" /\ (Ev.nfreq # Ev.wantfreq \/ Ev.nkeep # Ev.wantkeep \/ Ev.nasync # Ev.wantasync \/ Ev.ndir # Ev.wantdir)
@@ -214,21 +219,21 @@ RestoreOK ==
           /\ durable' = IF Ev.ndir = 2 THEN 0 ELSE durable
           /\ rfrom' = chosen
           /\ Step
-          /\ UNCHANGED <<onDisk, crashed>>
+          /\ UNCHANGED <<onDisk, crashed, savedp>>
 
 RestoreFailed ==
   /\ Running /\ Ev.e = "restore_failed"
   /\ LET src == onDisk[Ev.src] IN
      IF Ev.route = "restore" /\ ~T.fullconfig
      THEN (IF Ev.exc # "FileNotFoundError" THEN Reject("C10", "restore without a configuration file must raise FileNotFoundError")
-           ELSE Step /\ iter' = -1 /\ UNCHANGED <<incall, due, onDisk, durable, lastCall, prevCall, dir, freq, keep, isasync, crashed, expectSave, restoredOlder, rfrom>>)
+           ELSE Step /\ iter' = -1 /\ UNCHANGED <<incall, due, onDisk, durable, lastCall, prevCall, dir, freq, keep, isasync, crashed, expectSave, restoredOlder, rfrom, savedp>>)
      ELSE IF src = {}
      THEN (IF Ev.exc # "ValueError" THEN Reject("C10", "restore with no completed checkpoint must raise ValueError")
-           ELSE Step /\ iter' = -1 /\ UNCHANGED <<incall, due, onDisk, durable, lastCall, prevCall, dir, freq, keep, isasync, crashed, expectSave, restoredOlder, rfrom>>)
+           ELSE Step /\ iter' = -1 /\ UNCHANGED <<incall, due, onDisk, durable, lastCall, prevCall, dir, freq, keep, isasync, crashed, expectSave, restoredOlder, rfrom, savedp>>)
      \* an explicit step that is absent, or that retention was already deleting when the process was
      \* killed (a half-deleted directory), may fail - it must never return data (see RestoreOK)
      ELSE IF Ev.req > 0 /\ (Ev.req \notin src \/ (T.hadcrash /\ Ev.req \notin Largest(keep, src)))
-     THEN Step /\ iter' = -1 /\ UNCHANGED <<incall, due, onDisk, durable, lastCall, prevCall, dir, freq, keep, isasync, crashed, expectSave, restoredOlder, rfrom>>
+     THEN Step /\ iter' = -1 /\ UNCHANGED <<incall, due, onDisk, durable, lastCall, prevCall, dir, freq, keep, isasync, crashed, expectSave, restoredOlder, rfrom, savedp>>
      ELSE Reject("C11", "restore: failed although a completed checkpoint exists")
 
 SolveFailed ==
@@ -240,7 +245,7 @@ Accept ==
   /\ verdict' = "accepted"
   /\ PrintT(<<"ACCEPT", tid>>)
   /\ UNCHANGED <<tid, i, iter, incall, due, onDisk, durable, lastCall, prevCall, dir, freq, keep, isasync,
-                 crashed, expectSave, restoredOlder, rfrom>>
+                 crashed, expectSave, restoredOlder, rfrom, savedp>>
 
 Next == New \/ Begin \/ Sweep \/ SaveCall \/ SaveReturn \/ End \/ Waited \/ Listing \/ Crash
         \/ RestoreOK \/ RestoreFailed \/ SolveFailed \/ Accept
